@@ -70,7 +70,9 @@ inline size_t phrase_len(size_t maxlen = 511) {
   return n > maxlen ? maxlen : n;
 }
 inline Bytes phrase_of_len(size_t n) {
-  int style = wpick({6, 6, 3, 2, 1});  // ascii, full 1..255, high-bit heavy, contains 0x80/0xff, repeated
+  int style = wpick({6, 6, 3, 2, 1, 1});  // ascii, full 1..255, high-bit heavy, contains 0x80/0xff, repeated, runs of 0xff
+  size_t run_at = n ? (size_t)pick(0, (long long)n - 1) & ~(size_t)7 : 0, run_len = (size_t)pick(8, 96);
+  if (style == 5 && coin(1, 3)) { run_at = 0; run_len = n; }
   Bytes o;
   unsigned char rep = (unsigned char)pick(1, 255);
   for (size_t i = 0; i < n; i++) {
@@ -80,6 +82,7 @@ inline Bytes phrase_of_len(size_t n) {
       case 1: c = (unsigned char)pick(1, 255); break;
       case 2: c = (unsigned char)pick(0x80, 0xff); break;
       case 3: c = coin(1, 4) ? (coin() ? 0x80 : 0xff) : (unsigned char)pick(1, 255); break;
+      case 5: c = (i >= run_at && i < run_at + run_len) ? 0xff : (unsigned char)pick(1, 255); break;
       default: c = rep;
     }
     o.push_back((char)c);
